@@ -424,6 +424,21 @@ func c06Seq(in int, L uint32, exts []*c06Rec) string {
 
 func c06Reset() {
 	if !pristineTaken {
+		// Every descent of the tree walk (a detector that accepts) is a scheduling
+		// point: a walk that is not protected by the tree lock can then be
+		// overtaken by an Extend between two levels. Installed once, before the
+		// snapshot, so that VerifRestore keeps the wrappers.
+		mimetype.VerifWrapDetectors(func(_ int, _ string, d func([]byte, uint32) bool) func([]byte, uint32) bool {
+			return func(raw []byte, l uint32) bool {
+				r := d(raw, l)
+				if r {
+					if h := sched.Active; h != nil {
+						h.Point("walk.descend", nil)
+					}
+				}
+				return r
+			}
+		})
 		mimetype.VerifSnapshot()
 		pristineNodes = mimetype.VerifNodes()
 		pristineTaken = true
